@@ -81,9 +81,12 @@ def run_case(case):
     viols, errs = [], {}
     evals = 0
     rs = cm.rshells(shells)
-    rkind = cm.REPS[sum(len(s_["e"]) for s_ in shells) % len(cm.REPS)]  # in-memory representation of the array arguments
-    gpts = cm.rep(pts, rkind)
-    kw = {} if T is None else {"transform": cm.rep(T, rkind)}
+    rkind = cm.REPS[(sum(len(s_["e"]) for s_ in shells) + len(pts)) % len(cm.REPS)]  # representation / dtype of the array arguments
+    pts = cm.rep_values(pts, rkind)
+    gpts = cm.rep_typed(pts, rkind)
+    if T is not None:
+        T = cm.rep_values(T, rkind, scale=2.0)
+    kw = {} if T is None else {"transform": cm.rep_typed(T, rkind)}
 
     def reference(o):
         v, sc = gto.eval_deriv_basis(rs, pts, o, with_scale=True)
